@@ -1712,11 +1712,35 @@ theorem flagCalls_key_mem (o : CliOptions α) (call : Bool × String × Val)
     (h : call ∈ flagCalls o) : call.2.1 ∈ flagKeys :=
   (flagCalls_keys_sublist o).subset (List.mem_map.2 ⟨call, h, rfl⟩)
 
+/-- The generated flag says `max_width` first (breaks when the source goes back to the plain loop). -/
+theorem orderInline_eq (l : List (String × Val)) : orderInline l = maxWidthFirst l := by
+  unfold orderInline
+  have h : inlineMaxWidthFirst = true := by decide
+  simp only [h, if_true]
+
+theorem maxWidthFirst_perm (l : List (String × Val)) : (maxWidthFirst l).Perm l :=
+  List.filter_append_perm _ l
+
+theorem orderInline_perm (l : List (String × Val)) : (orderInline l).Perm l := by
+  rw [orderInline_eq]; exact maxWidthFirst_perm l
+
+theorem mem_orderInline (l : List (String × Val)) (kv : String × Val) :
+    kv ∈ orderInline l ↔ kv ∈ l := (orderInline_perm l).mem_iff
+
+theorem orderInline_keys_perm (l : List (String × Val)) :
+    ((orderInline l).map (·.1)).Perm (l.map (·.1)) := (orderInline_perm l).map _
+
+theorem orderInline_single (k : String) (v : Val) : orderInline [(k, v)] = [(k, v)] := by
+  rw [orderInline_eq]
+  unfold maxWidthFirst
+  by_cases h : (k == "max_width") = true <;> simp [List.filter, h]
+
 /-- `apply_to` never panics when every `--config` pair is well-typed. -/
 theorem applyTo_some (o : CliOptions α) (c : Config)
     (hv : ∀ kv ∈ o.inlineConfig, checkVal kv.1 kv.2 = true) : ∃ c', applyTo o c = some c' := by
   obtain ⟨c1, h1⟩ := applyFlagCalls_some (flagCalls o) c (flagCalls_valid o)
-  obtain ⟨c2, h2⟩ := applyInline_some o.inlineConfig c1 hv
+  obtain ⟨c2, h2⟩ := applyInline_some (orderInline o.inlineConfig) c1
+    (fun kv hkv => hv kv ((mem_orderInline _ kv).1 hkv))
   exact ⟨c2, by simp [applyTo, h1, bindO, h2]⟩
 
 theorem applyTo_inline_wins (o : CliOptions α) (c c' : Config) (h : applyTo o c = some c')
@@ -1728,7 +1752,8 @@ theorem applyTo_inline_wins (o : CliOptions α) (c c' : Config) (h : applyTo o c
   | none => simp [h1, bindO] at h
   | some c1 =>
     simp only [h1, bindO] at h
-    exact applyInline_mem _ c1 c' h k v hm hnd hw
+    exact applyInline_mem _ c1 c' h k v ((mem_orderInline _ _).2 hm)
+      ((orderInline_keys_perm _).nodup_iff.2 hnd) hw
 
 theorem applyTo_flag_wins (o : CliOptions α) (c c' : Config) (h : applyTo o c = some c')
     (cli : Bool) (k : String) (v : Val) (hm : (cli, k, v) ∈ flagCalls o)
@@ -1741,7 +1766,8 @@ theorem applyTo_flag_wins (o : CliOptions α) (c c' : Config) (h : applyTo o c =
     simp only [h1, bindO] at h
     have hfree := flagKeys_free k (flagCalls_key_mem o _ hm)
     have hp : Protected c1 k := ⟨hfree.1, fun hh => absurd hh hfree.2⟩
-    rw [applyInline_frame _ c1 c' h k hk hp]
+    rw [applyInline_frame _ c1 c' h k
+      (fun hh => hk ((orderInline_keys_perm _).mem_iff.1 hh)) hp]
     exact applyFlagCalls_mem _ c c1 h1 cli k v hm (flagCalls_keys_nodup o) hfree.1 hfree.2
 
 theorem flagCalls_default :
@@ -1772,7 +1798,7 @@ theorem applyTo_single (c : Config) (k : String) (v : Val) (hv : checkVal k v = 
       flagCalls ({} : CliOptions α) := rfl
   unfold applyTo
   rw [hf, applyFlagCalls_default]
-  simp only [bindO, applyInline]
+  simp only [orderInline_single, bindO, applyInline]
   cases h1 : overrideValue (fl0 c) k v with
   | none => simp [overrideValue, hv] at h1
   | some c1 => exact ⟨c1, rfl, overrideValue_equiv_ov _ _ _ _ h1⟩
